@@ -31,7 +31,7 @@ import _c18_stub as S  # noqa: E402
 SRC = ["src/pynguin/testcase/export.py", "src/pynguin/assertion/assertion_to_ast.py", "src/pynguin/generator.py",
        "src/pynguin/assertion/assertiontraceobserver.py", "src/pynguin/testcase/testcase.py"]
 SUT_DIR = vlib.VERIF / "corpus" / "C18" / "sut"
-SUT_MODULES = ["numeric", "strings", "containers", "state", "enums", "floats", "rnd", "errors", "shapes.area", "foreign", "exits", "kwclash", "declared", "rndkey", "summary"]
+SUT_MODULES = ["numeric", "strings", "containers", "state", "enums", "floats", "rnd", "errors", "shapes.area", "foreign", "exits", "kwclash", "declared", "rndkey", "summary", "testnames", "nestedexc"]
 MODES = ["MUTATION_ANALYSIS", "SIMPLE", "NONE", "CHECKED_MINIMIZING"]
 GEN = str(Path(__file__).resolve().parent / "_c18_gen.py")
 
@@ -111,6 +111,55 @@ def shrink_spec(spec, sig, scratch, budget=30):
                 cur = cand
             i -= 1
     return cur
+
+
+def assertion_filter_differences(rng, n):
+    """AssertionGenerator.__remove_non_holding_assertions on random verification traces: exactly the assertions
+    reported as failed or erroneous are removed, the others stay, in order (or the call raises)."""
+    import libcst as cst
+    import pynguin.assertion.assertion as ass
+    import pynguin.assertion.assertion_trace as at
+    import pynguin.assertion.assertiongenerator as agm
+    import pynguin.testcase.testcase as tcm
+
+    flt = getattr(agm.AssertionGenerator, "_AssertionGenerator__remove_non_holding_assertions")
+
+    class _Res:
+        def __init__(self, trace):
+            self.assertion_verification_trace = trace
+            self.timeout = False
+
+    bad = []
+    for _ in range(n):
+        t = tcm.TestCase()
+        sizes = [rng.choice([0, 1, 2, 3, 3, 4, 6]) for _ in range(rng.choice([1, 2, 3]))]
+        for si, k in enumerate(sizes):
+            t.add_statement(tcm.Statement(
+                node=cst.parse_statement(f"var_{si} = {si}\n"), bound_variable=f"var_{si}",
+                assertions=[ass.ObjectAssertion(f"var_{si}.f{j}", j) if rng.random() < 0.8 else ass.FloatAssertion(f"var_{si}.g{j}", float("nan"))
+                            for j in range(k)]))
+        trace = at.AssertionVerificationTrace()
+        spec = []
+        for si, k in enumerate(sizes):
+            failed = {j for j in range(k) if rng.random() < 0.35}
+            error = {j for j in range(k) if rng.random() < 0.15}
+            for j in failed:
+                trace.failed[si].add(j)
+            for j in error:
+                trace.error[si].add(j)
+            spec.append((sorted(failed), sorted(error), [j for j in range(k) if j not in failed | error]))
+        before = [[id(a) for a in st.assertions] for st in t.statements()]
+        try:
+            flt(t, _Res(trace))
+            kept = [[before[si].index(id(a)) for a in st.assertions] for si, st in enumerate(t.statements())]
+        except Exception as e:  # noqa: BLE001
+            kept = f"raises {type(e).__name__}"
+        for si, (failed, error, expected) in enumerate(spec):
+            got = kept if isinstance(kept, str) else kept[si]
+            if got != expected:
+                bad.append({"n": sizes[si], "failed": failed, "error": error, "kept": got, "expected": expected})
+                break
+    return bad
 
 
 def seed_patch_differences(repo, seeds):
@@ -193,6 +242,11 @@ def e2e_job(job, repo, scratch):
             else:
                 new_bad.append((s, m + (" || cause analysis: " + why if why and s.endswith(":value") else "")))
         bad = new_bad
+    if res.get("filter", {}).get("timeouts", 0) > 0:
+        # a never-holding assertion is only removed when a filtering execution delivers a verdict
+        tag = f" || {res['filter']['timeouts']} of {res['filter']['calls']} filtering executions timed out during this generation"
+        bad = [((s + ":filter-timed-out", m + tag) if s.startswith("pytest:test-failed:AssertionError:non-holding-") else (s, m))
+               for s, m in bad]
     for where, name, kind in L.static_unbound(src):
         bad.append((f"unbound-name:{kind}", f"{fname}::{where} uses `{name}`, which nothing in the file binds"))
     import ast as _ast
@@ -247,12 +301,12 @@ def run(ctx: vlib.Ctx):
                     if s["exc"][2]:
                         ctx.count("stub:exc:base-exception-not-exception:" + s["exc"][0])
                 seen_by_writer = s.get("exc_writer")
-                if (s["exc"][0] if s["exc"] else None) != seen_by_writer:
+                if s.get("exc_class") != seen_by_writer:
                     kind = "base-exception" if s["exc"] and s["exc"][2] else "exception"
                     sig = f"reexecution:exception-missed:{kind}"
                     if sig not in pre_sigs:
                         pre_sigs.add(sig)
-                        ctx.fail(sig, f"statement `{s['code'].strip()}` raises {s['exc'][0] if s['exc'] else None} when executed, but the "
+                        ctx.fail(sig, f"statement `{s['code'].strip()}` raises {s.get('exc_class')} when executed, but the "
                                       f"writer's re-execution (_per_statement_exceptions) recorded {seen_by_writer}",
                                  {"kind": "stub", "spec": sp, "written_file": rec["src"]})
                 for a in s["asserts"]:
@@ -298,6 +352,14 @@ def run(ctx: vlib.Ctx):
         ctx.leg("K2", ok=True, suites=len(cases))
 
     ctx.log("model evaluated on the stub suites")
+    # ---- K: the filter that removes non-holding assertions, against its specification ---------------------
+    fbad = assertion_filter_differences(rng, 200 if ctx.quick else 3000)
+    if fbad:
+        ctx.fail("assertion-filter:wrong-assertions-removed",
+                 f"after a filtering execution that reports assertions {fbad[0]['failed']} (failed) / {fbad[0]['error']} (error) of a "
+                 f"statement with {fbad[0]['n']} assertions, the statement keeps {fbad[0]['kept']} instead of {fbad[0]['expected']}",
+                 {"kind": "filter", "case": fbad[0]})
+    ctx.leg("K-filter", ok=not fbad, cases=200 if ctx.quick else 3000)
     # ---- K: the two copies of the random.Random.seed patch (generation time vs. exported text) -------
     sp_bad = seed_patch_differences(ctx.repo, [rng.randrange(1, 10**6), 0])
     for label, g, e in sp_bad[:1]:
@@ -390,6 +452,11 @@ def replay(ctx, path):
     vlib.setup_impl_path()
     d = json.loads(open(path).read())["replay"]
     scratch = ctx.mkscratch()
+    if d["kind"] == "filter":
+        import random as _r
+
+        print("differences now:", assertion_filter_differences(_r.Random(0), 300)[:2])
+        return 0
     if d["kind"] == "seedpatch":
         print("differences now:", seed_patch_differences(ctx.repo, [0]))
         return 0
